@@ -46,13 +46,13 @@ def module_roots(prefix='kernpy'):
         if mod is None or not (name == prefix or name.startswith(prefix + '.')) or '.generated' in name:
             continue
         for k, v in sorted(vars(mod).items()):
-            if k.startswith('__'):
-                continue
+            if k.startswith('_'):
+                continue      # private module attributes (e.g. a cache) are not "shared defaults"; their effect, if any, shows in the results
             if isinstance(v, (list, dict, set)):
                 roots.append((name, k, v))
             elif isinstance(v, type) and getattr(v, '__module__', None) == name:
                 for ak, av in sorted(vars(v).items()):
-                    if ak.startswith('__'):
+                    if ak.startswith('_'):
                         continue
                     if isinstance(av, (list, dict, set, int, str, float, tuple)) and not isinstance(av, bool):
                         if ak == 'NextID':
